@@ -348,8 +348,10 @@ def run_driver(ctx, exe, cases, tag, env=None, timeout=1800, args=()):
             site = l.split(": runtime error")[0].split("/")[-1]
             if site not in st:
                 st.append(site)
-    if other and rc == 0:
+    if other and rc in (0, 87):
         return lines, 87, "\n".join(other[:20])
+    if rc == 87 and benign and not other and "AddressSanitizer" not in err and "LeakSanitizer" not in err:
+        rc = 0          # UBSan overrides the exit status even for the recoverable, benign NULL+0 reports
     return lines, rc, err[-6000:]
 
 
